@@ -198,7 +198,11 @@ def classify_value(I, ev, F, v, old, depth=0):
     if v == F:
         return 'EMPTY'
     if v[0] == 'app' and v[1] == 'round_down' and v[2] == F:
-        return 'EMPTY'
+        # rounding the footer address down is the identity only for alignments that divide it
+        P0 = prover.Prover(I, ev.state.facts)
+        if P0.aligned(F, v[3]):
+            return 'EMPTY'
+        return 'OTHER'
     if is_load_of(v, 'data'):
         return 'FULL'
     if is_load_of(v, 'ptr'):
